@@ -12,7 +12,7 @@ CIRCLE_SKY = 'regions/shapes/circle.py::CircleSkyRegion'
 POLY_SKY = 'regions/shapes/polygon.py::PolygonSkyRegion'
 
 VALUES = ('pos', 'nonpos', 'posint', 'zeroint', 'nan', 'inf', 'ninf', 'str', 'none', 'list', 'tuple', 'arr0', 'arr1', 'bool',
-          'q_pix', 'q_deg_pos', 'q_deg_nonpos', 'q_deg_inf', 'q_deg_nan', 'q_rad_any', 'q_deg_arr', 'pix_scalar', 'pix_arr1', 'pix_arr2',
+          'q_pix', 'q_sr_pos', 'q_deg_pos', 'q_deg_nonpos', 'q_deg_inf', 'q_deg_nan', 'q_rad_any', 'q_deg_arr', 'pix_scalar', 'pix_arr1', 'pix_arr2',
           'sky_scalar', 'sky_arr1', 'dict')
 
 
@@ -56,6 +56,10 @@ def make_value(B, kind):
         return True
     if kind == 'q_pix':
         return B.quantity('vq', 'pix')
+    if kind == 'q_sr_pos':
+        q = B.quantity('vq', 'sr')            # a solid angle is not an angle
+        B.assume(q.value > 0)
+        return q
     if kind == 'q_deg_pos':
         q = B.quantity('vq', 'deg')
         B.assume(q.to_value('rad') > 0)
@@ -91,7 +95,14 @@ def make_value(B, kind):
 
 def sky(B, name, frame='icrs'):
     from astropy.coordinates import SkyCoord
-    return B.call(SkyCoord, B.quantity(name + '.lon', 'deg'), B.quantity(name + '.lat', 'deg'), frame=frame)
+    from vprim import PI
+    lon, lat = B.quantity(name + '.lon', 'deg'), B.quantity(name + '.lat', 'deg')
+    # the type invariant of a celestial position: latitude within [-90, 90] deg, longitude already wrapped into [0, 360) deg
+    B.assume(lat.to_value('rad') >= -PI / 2)
+    B.assume(lat.to_value('rad') <= PI / 2)
+    B.assume(lon.to_value('rad') >= 0)
+    B.assume(lon.to_value('rad') < 2 * PI)
+    return B.call(SkyCoord, lon, lat, frame=frame)
 
 
 def sky_array(B, name, frame='icrs'):
